@@ -104,6 +104,9 @@ PROPS = {
             'compound header writers: the call-site fact count <= byte length (every element occupies at least one byte in this implementation) is assumed; the serde SerializeSeq/Map impls that call them are not under contract',
             'messages: Message::serialize is proved to hand the serializer exactly the sections that are set, in the AMQP order, and the Message visitor (visit_seq, FieldVisitor::visit_u64) to rebuild the same sections from them (lemma_message_round_trip, all 64 presence combinations, body descriptors 0x75-0x77); the encoding of each section value (derive output), the body types (incl. batches of Data/AmqpSequence) and symbolic descriptors (visit_str) are not under contract']),
     'C05': dict(
+        probes=[dict(name='spec_defaults_of_elided_fields', kind='agreement', target='serde_amqp::from_slice~fe2o3_amqp_types-composites', args=['C05.spec-defaults'],
+                     claim='a composite whose defaulted fields are elided (list0, short list) or sent as null decodes to the defaults of the SPECIFICATION, written out in the probe (header: durable false, priority 4, first-acquirer false, delivery-count 0; open: max-frame-size 4294967295, channel-max 65535; begin: handle-max 4294967295; attach: snd-settle-mode mixed, rcv-settle-mode first, incomplete-unsettled false; flow: drain / echo false; transfer: more / aborted / batchable / resume false; disposition: settled / batchable false; detach: closed false; source / target: durable none, expiry-policy session-end, timeout 0, dynamic false)',
+                     bound='12 reference encodings written by hand from the specification, 36 field checks (derive-macro output is outside the Verus subset)')],
         units=['SERHDR', 'SERSTR', 'SERFIX', 'READERS', 'VALUESER'], kani=K_RT + K_DEC, level='proof', title='Valid encodings / every variant accepted (fixed- and variable-width primitives, compound headers)',
         lemmas={'READERS': ['lemma_var_round_trip', 'lemma_be32_inverse', 'lemma_be64_inverse', 'lemma_fixed_round_trip_u64', 'lemma_fixed_round_trip_u32', 'lemma_fixed_round_trip_u8', 'lemma_fixed_round_trip_i32', 'lemma_fixed_round_trip_i64']},
         assumptions=[VARW,
